@@ -327,9 +327,12 @@ def impl_named(name, args, how="positional"):
         if how == "positional":
             o = f(*[W.os_arg(a) for a in args])
         else:
-            import inspect
+            import inspect, random as _r
             names = list(inspect.signature(f).parameters.keys())
-            o = f(**{n: W.os_arg(a) for n, a in zip(names, args)})
+            items = [(n, W.os_arg(a)) for n, a in zip(names, args)]
+            if how.startswith("keyword-shuffled"):
+                _r.Random(int(how.split(":")[1])).shuffle(items); items.reverse()
+            o = f(**dict(items))
         return {"err": None, "v": W.w_stmt(o)}
     except Exception as ex:
         return {"err": err_name(ex), "v": None}
